@@ -232,8 +232,9 @@ class CompositeHexagonalAperture:
             # and polynomials which is the polynomial base for each segment,
             # with the same duplicate note as the grids
             for x, y in self.local_coords:
-                corner = float(x[0, 0])  # for Cupy support
-                key = (corner, *x.shape)
+                # float() for Cupy support; the grid is defined by both corners
+                corner = (float(x[0, 0]), float(y[0, 0]))
+                key = (*corner, *x.shape)
                 if key not in gridcache:
                     r, t = cart_to_polar(x, y)
                     r /= nr
@@ -250,8 +251,9 @@ class CompositeHexagonalAperture:
         else:
             # assume x, y are the kwargs
             for x, y in self.local_coords:
-                corner = float(x[0, 0])  # for Cupy support
-                key = (corner, *x.shape)
+                # float() for Cupy support; the grid is defined by both corners
+                corner = (float(x[0, 0]), float(y[0, 0]))
+                key = (*corner, *x.shape)
                 if key not in gridcache:
                     xx = x / normalization_radius[0]
                     yy = y / normalization_radius[1]
